@@ -6,7 +6,7 @@ from specs import optics
 EXPLANATION = ('C03: the same aperture described by one global mask and by a partition into per-segment masks (3-D stack, blocks may '
                'interleave so that bounding boxes overlap or nest), through Pupil (x second masked Pupil) -> propagate_dft -> field and intensity.')
 BOUNDS = {
-    'quick': 'pupil arrays <= 3x3 incl. non-square; supports of 2..5 cells; set partitions into 1..3 blocks (180 sampled + fixed); '
+    'quick': 'pupil arrays <= 3x3 incl. non-square; supports of 2..5 cells; set partitions into 1..3 blocks (420 sampled + fixed); '
              'one or two masked planes, optionally a Tilt before and a default / all-scalar / Tilt plane after them; oversample 1..2; shape n / n+1; prop_shape = shape / shape-1',
     'thorough': 'pupil arrays <= 4x4; supports of 2..6 cells; partitions into 1..4 blocks (1500 sampled + fixed)',
 }
@@ -29,7 +29,7 @@ def partitions(items, kmax):
 
 def configs(tier, seed):
     rng = random.Random(303 + seed)
-    top, smax, kmax, want = (3, 5, 3, 180) if tier == 'quick' else (4, 6, 4, 1500)
+    top, smax, kmax, want = (3, 5, 3, 420) if tier == 'quick' else (4, 6, 4, 1500)
     out = []
     for _ in range(want):
         nr, nc = rng.randint(1, top), rng.randint(1, top)
